@@ -14,7 +14,7 @@ import MpVerif.C20.ModelExporter
   C <hexty> g <hexname>   one delivered constraint (short type name, group, name)
   check              -> `ok` | `fail <reasons>`
   EX <sub> …         exporter transition system (ModelExporter): `reset`, `types <hexty>*`, `grp <hexty> n`, `name <hexty> i <hexname>`,
-                     `static <hexnode> n`, events `v b ty li ui`, `sv i ty li ui`, `s <hexty>`, `b <hexty> i`, `u <hexty> i`,
+                     `addnodes <hexnode>*`, events `a <hexnode> n` (ValueNode::Add), `v b ty li ui`, `sv i ty li ui`, `s <hexty>`, `b <hexty> i`, `u <hexty> i`,
                      `l <hexlty> entry <src> <dst>` (endpoints `hexnode:beg:last` joined by `,`, or `-`), `f`;
                      `dump` -> `rej=<n> fin=<0|1> | <non-link records> | <delivered> | links=<n>`
   EB <hex>           byte-level `EscapeJSON` model: hex of `escapeB` of the given bytes
@@ -96,10 +96,10 @@ structure XCfgS where
   types : List Str := []
   grp : List (Str × Nat) := []
   names : List ((Str × Nat) × Str) := []
-  static : List (Str × Nat) := []
+  addNodes : List Str := []
 
 def XCfgS.toCfg (c : XCfgS) : Cfg :=
-  ⟨c.types, fun ty => (c.grp.lookup ty).getD 0, fun ty i => (c.names.lookup (ty, i)).getD [], c.static⟩
+  ⟨c.types, fun ty => (c.grp.lookup ty).getD 0, fun ty i => (c.names.lookup (ty, i)).getD [], c.addNodes⟩
 
 def parseRefs (s : String) : Option (List NodeRef) :=
   if s == "-" then some [] else
@@ -174,9 +174,13 @@ partial def loop (h : IO.FS.Stream) (out : IO.FS.Stream) (st : DState) : IO Unit
       | some (some ty), some i, some (some nm) =>
         out.putStrLn "ok"; loop h out { st with xc := { st.xc with names := st.xc.names ++ [((ty, i), nm)] } }
       | _, _, _ => out.putStrLn "bad-op"; loop h out st
-    | ["static", nd, n] =>
+    | "addnodes" :: nds =>
+      match nds.mapM (fun t => match unhexStr t with | some (some x) => some x | _ => none) with
+      | some l => out.putStrLn "ok"; loop h out { st with xc := { st.xc with addNodes := l } }
+      | none => out.putStrLn "bad-op"; loop h out st
+    | ["a", nd, n] =>
       match unhexStr nd, n.toNat? with
-      | some (some nd), some n => out.putStrLn "ok"; loop h out { st with xc := { st.xc with static := st.xc.static ++ [(nd, n)] } }
+      | some (some nd), some n => ev (.addItems nd n)
       | _, _ => out.putStrLn "bad-op"; loop h out st
     | ["v", b, ty, li, ui] =>
       match b.toNat?, ty.toNat?, li.toNat?, ui.toNat? with
